@@ -26,6 +26,9 @@ func init() {
 			{"packet.go", "\tvar fh fixedHeader\n", "\tr = bufio.NewReader(r)\n\tvar fh fixedHeader\n"},
 			{"packet.go", "import (\n", "import (\n\t\"bufio\"\n"}}},
 		{Name: "limitreader", Rule: "R6.1", Where: "ReadRemaining", Edits: []Edit{{"packet.go", "io.ReadFull(r, data)", "io.ReadFull(io.LimitReader(r, int64(len(data))), data)"}}},
+		{Name: "body-stage-in-helpers-single-exit", Silent: true, Edits: []Edit{{"packet.go", "\tif f.remainingLen == 0 {\n\t\treturn p, nil\n\t}\n\tdata := make([]byte, int(f.remainingLen))\n\tif _, err := io.ReadFull(r, data); err != nil {\n\t\treturn nil, fmt.Errorf(\n\t\t\t\"%s ReadRemaining: %w\",\n\t\t\tfirstByte(f.fixed).String(), err,\n\t\t)\n\t}\n\n\tif err := p.UnmarshalBinary(data); err != nil {\n\t\treturn nil, fmt.Errorf(\n\t\t\t\"%s %v UnmarshalBinary: %w\",\n\t\t\tfirstByte(f.fixed).String(), f.remainingLen, err,\n\t\t)\n\t}\n\treturn p, nil\n}\n", "\tif f.remainingLen > 0 {\n\t\tdata, err := f.readBody(r)\n\t\tif err != nil {\n\t\t\treturn nil, f.wrap(\"ReadRemaining\", err)\n\t\t}\n\t\tif err := p.UnmarshalBinary(data); err != nil {\n\t\t\treturn nil, f.wrap(fmt.Sprintf(\"%v UnmarshalBinary\", f.remainingLen), err)\n\t\t}\n\t}\n\treturn p, nil\n}\n\nfunc (f *fixedHeader) readBody(r io.Reader) ([]byte, error) {\n\tdata := make([]byte, int(f.remainingLen))\n\tif _, err := io.ReadFull(r, data); err != nil {\n\t\treturn nil, err\n\t}\n\treturn data, nil\n}\n\nfunc (f *fixedHeader) wrap(op string, err error) error {\n\treturn fmt.Errorf(\"%s %s: %w\", firstByte(f.fixed).String(), op, err)\n}\n"}}},
+		{Name: "body-stage-in-helpers-one-byte-body-skipped", Rule: "R6.4", Where: "readBody", Edits: []Edit{{"packet.go", "\tif f.remainingLen == 0 {\n\t\treturn p, nil\n\t}\n\tdata := make([]byte, int(f.remainingLen))\n\tif _, err := io.ReadFull(r, data); err != nil {\n\t\treturn nil, fmt.Errorf(\n\t\t\t\"%s ReadRemaining: %w\",\n\t\t\tfirstByte(f.fixed).String(), err,\n\t\t)\n\t}\n\n\tif err := p.UnmarshalBinary(data); err != nil {\n\t\treturn nil, fmt.Errorf(\n\t\t\t\"%s %v UnmarshalBinary: %w\",\n\t\t\tfirstByte(f.fixed).String(), f.remainingLen, err,\n\t\t)\n\t}\n\treturn p, nil\n}\n", "\tif f.remainingLen > 1 {\n\t\tdata, err := f.readBody(r)\n\t\tif err != nil {\n\t\t\treturn nil, f.wrap(\"ReadRemaining\", err)\n\t\t}\n\t\tif err := p.UnmarshalBinary(data); err != nil {\n\t\t\treturn nil, f.wrap(fmt.Sprintf(\"%v UnmarshalBinary\", f.remainingLen), err)\n\t\t}\n\t}\n\treturn p, nil\n}\n\nfunc (f *fixedHeader) readBody(r io.Reader) ([]byte, error) {\n\tdata := make([]byte, int(f.remainingLen))\n\tif _, err := io.ReadFull(r, data); err != nil {\n\t\treturn nil, err\n\t}\n\treturn data, nil\n}\n\nfunc (f *fixedHeader) wrap(op string, err error) error {\n\treturn fmt.Errorf(\"%s %s: %w\", firstByte(f.fixed).String(), op, err)\n}\n"}}},
+		{Name: "header-stage-refuses-a-length-before-the-body-is-read", Rule: "R6.4", Where: "header-exits", Edits: []Edit{{"packet.go", "\tm, err := f.remainingLen.ReadFrom(r)\n\treturn n + m, err", "\tm, err := f.remainingLen.ReadFrom(r)\n\tif err != nil {\n\t\treturn n + m, err\n\t}\n\tif f.remainingLen == 1 && byte(f.fixed)&0xf0 == PUBACK {\n\t\treturn n + m, newMalformed(f, \"remaining length\", \"missing data\")\n\t}\n\treturn n + m, nil"}}},
 		{Name: "early-return-before-body", Rule: "R6.4", Where: "ReadRemaining", Edits: []Edit{{"packet.go", "\tdefault:\n\t\tp = &Undefined{}\n\t}", "\tdefault:\n\t\treturn nil, fmt.Errorf(\"undefined packet type\")\n\t}"}}},
 		{Name: "header-two-byte-buffer", Rule: "R6.2", Where: "(*vbint).ReadFrom", Edits: []Edit{{"wiretypes.go", "\tvar value uint\n\tdata := make([]byte, 1)\n\tvar i int64", "\tvar value uint\n\tdata := make([]byte, 2)\n\tvar i int64"}}},
 		{Name: "header-length-overwritten", Rule: "R6.2", Where: "remainingLen", Edits: []Edit{{"packet.go", "\tm, err := f.remainingLen.ReadFrom(r)\n", "\tm, err := f.remainingLen.ReadFrom(r)\n\tif f.remainingLen > 1<<20 {\n\t\tf.remainingLen = 1 << 20\n\t}\n"}}},
@@ -626,6 +629,11 @@ func checkBodySite(p *Prog, c *Check, u ReaderUse, onPath map[*ssa.Function]bool
 						if clean {
 							sameObj = true
 							why = "caller " + qname(cf) + " passes the same fresh header object to both stages, header stage first"
+							// R6.4 in the header stage itself: it fails only when one of its reads fails (or inside the length
+							// reader, when the header is longer than a header may be).  A refusal after its last read has
+							// succeeded — decided by the type or the length just read — makes the caller leave with the
+							// frame's body still in the stream
+							checkHeaderStageExits(p, c, hCall.Call.StaticCallee())
 							// R6.4 in this caller: once the header stage has succeeded, every way out leads through the
 							// body stage — an exit in between (decided by anything but the header stage's own failure)
 							// leaves the frame's body in the stream
@@ -697,69 +705,189 @@ func checkBodySite(p *Prog, c *Check, u ReaderUse, onPath map[*ssa.Function]bool
 	for _, stg := range stages {
 		fn, base := stg.fn, stg.base
 		readIns := stg.read
-		for _, b := range fn.Blocks {
-			ret, ok := terminator(b).(*ssa.Return)
+		// the edges taken when the length cell is zero (`== 0`, `!= 0`, and for an unsigned cell `> 0`, `< 1`, …)
+		var zero []cfgEdge
+		for _, ib := range fn.Blocks {
+			iff, ok := terminator(ib).(*ssa.If)
 			if !ok {
 				continue
 			}
-			if readIns.Block().Dominates(b) {
+			bo, ok := iff.Cond.(*ssa.BinOp)
+			if !ok {
 				continue
 			}
-			// must be on the zero edge of a test of the same cell
-			onZero := false
-			for d := b; d != nil; d = d.Idom() {
-				id := d.Idom()
-				if id == nil {
-					break
+			op := bo.Op
+			var x ssa.Value
+			var k int64
+			if kk, ok := constInt(bo.Y); ok {
+				x, k = bo.X, kk
+			} else if kk, ok := constInt(bo.X); ok {
+				x, k = bo.Y, kk
+				switch op { // mirror
+				case token.LSS:
+					op = token.GTR
+				case token.GTR:
+					op = token.LSS
+				case token.LEQ:
+					op = token.GEQ
+				case token.GEQ:
+					op = token.LEQ
 				}
-				iff, ok := terminator(id).(*ssa.If)
-				if !ok {
-					continue
-				}
-				bo, ok := iff.Cond.(*ssa.BinOp)
-				if !ok {
-					continue
-				}
-				var x ssa.Value
-				if k0, ok := constInt(bo.Y); ok && k0 == 0 {
-					x = bo.X
-				} else if k0, ok := constInt(bo.X); ok && k0 == 0 {
-					x = bo.Y
-				} else {
-					continue
-				}
-				l2, ok := p.stripNonNarrowing(x).(*ssa.UnOp)
-				if !ok || l2.Op.String() != "*" {
-					continue
-				}
-				if k2, b2, ok := classOfAddr(l2.X); !ok || !k2.same(cls) || b2 != base {
-					continue
-				}
-				zeroSucc := -1
-				switch bo.Op.String() {
-				case "==":
-					zeroSucc = 0
-				case "!=":
-					zeroSucc = 1
-				}
-				if zeroSucc >= 0 && edgeDominates(id, id.Succs[zeroSucc], b) {
-					onZero = true
-				}
-			}
-			if onZero {
-				// no read may precede it
-				if mayFollow(readIns, ret) {
-					okAll = false
-					c.Bad("R6.4", cons, posOf(p, ret), "exit on the zero-length edge is reachable after the body read")
-				}
+			} else {
 				continue
 			}
-			okAll = false
-			c.Bad("R6.4", cons, posOf(p, ret), "exit that is not behind the body read and not on the `length == 0` edge: the frame's body is left in the stream")
+			l2, ok := p.stripNonNarrowing(x).(*ssa.UnOp)
+			if !ok || l2.Op.String() != "*" {
+				continue
+			}
+			if k2, b2, ok := classOfAddr(l2.X); !ok || !k2.same(cls) || b2 != base {
+				continue
+			}
+			unsigned := false
+			if bt, ok := x.Type().Underlying().(*types.Basic); ok && bt.Info()&types.IsUnsigned != 0 {
+				unsigned = true
+			}
+			zeroSucc := -1
+			switch {
+			case op == token.EQL && k == 0:
+				zeroSucc = 0
+			case op == token.NEQ && k == 0:
+				zeroSucc = 1
+			case unsigned && (op == token.GTR && k == 0 || op == token.GEQ && k == 1):
+				zeroSucc = 1
+			case unsigned && (op == token.LEQ && k == 0 || op == token.LSS && k == 1):
+				zeroSucc = 0
+			}
+			if zeroSucc >= 0 {
+				zero = append(zero, cfgEdge{ib, ib.Succs[zeroSucc]})
+			}
+		}
+		// blocks that can be entered without having passed the read and without having crossed a zero edge
+		unread := map[*ssa.BasicBlock]bool{}
+		var walk func(b *ssa.BasicBlock)
+		walk = func(b *ssa.BasicBlock) {
+			if unread[b] {
+				return
+			}
+			unread[b] = true
+			if b == readIns.Block() {
+				return // what follows lies behind the read
+			}
+		next:
+			for _, sc := range b.Succs {
+				for _, z := range zero {
+					if z.from == b && z.to == sc {
+						continue next
+					}
+				}
+				walk(sc)
+			}
+		}
+		if len(fn.Blocks) > 0 {
+			walk(fn.Blocks[0])
+		}
+		for _, b := range fn.Blocks {
+			ret, ok := terminator(b).(*ssa.Return)
+			if !ok || b == readIns.Block() {
+				continue
+			}
+			if dominatedByAny(zero, b) && mayFollow(readIns, ret) {
+				okAll = false
+				c.Bad("R6.4", cons, posOf(p, ret), "exit on the zero-length edge is reachable after the body read")
+				continue
+			}
+			if unread[b] {
+				okAll = false
+				c.Bad("R6.4", cons, posOf(p, ret), "exit that is not behind the body read and not on the `length == 0` edge: the frame's body is left in the stream")
+			}
 		}
 	}
 	if okAll {
 		c.OK("R6.4", cons, pos, "every exit lies behind the body read or on the `length == 0` edge (no read)")
+	}
+}
+
+// checkHeaderStageExits: in the function that reads the fixed header, every return reachable with the last read
+// having succeeded returns a nil error (the constant, or the last read's own error value).
+func checkHeaderStageExits(p *Prog, c *Check, h *ssa.Function) {
+	if h == nil || len(h.Blocks) == 0 {
+		return
+	}
+	k := errorResultIndex(h.Signature)
+	if k < 0 {
+		return
+	}
+	// the last reader use in dominance order
+	var last *ReaderUse
+	uses := p.ReaderUses(h)
+	for i := range uses {
+		u := &uses[i]
+		if u.Kind != FullRead && u.Kind != PassMQ || u.Call == nil {
+			continue
+		}
+		if last == nil || last.Ins.Block().Dominates(u.Ins.Block()) && last.Ins != u.Ins {
+			last = u
+		}
+	}
+	if last == nil {
+		return
+	}
+	var e ssa.Value
+	if last.Kind == FullRead {
+		e = callResultError(last.Call, 1)
+	} else if sc := last.Call.Call.StaticCallee(); sc != nil {
+		if ek := errorResultIndex(sc.Signature); ek >= 0 {
+			e = callResultError(last.Call, ek)
+		}
+	}
+	cons := qname(h) + "#header-exits"
+	if e == nil {
+		c.Unk("R6.4", cons, posOf(p, last.Ins), "cannot identify the error of the header stage's last read")
+		return
+	}
+	nonNil, _ := errEdges(e)
+	pr := NewProver(p, h)
+	okAll := true
+	var isNilOrE func(v ssa.Value, d int) bool
+	isNilOrE = func(v ssa.Value, d int) bool {
+		if d > 6 {
+			return false
+		}
+		if isNilConst(v) || v == e {
+			return true
+		}
+		if ph, ok := v.(*ssa.Phi); ok {
+			for i, ed := range ph.Edges {
+				pred := ph.Block().Preds[i]
+				if pred != last.Ins.Block() && !blocksReachableFrom(last.Ins.Block())[pred] {
+					continue // arrives without having passed the last read
+				}
+				if !isNilOrE(ed, d+1) {
+					return false
+				}
+			}
+			return len(ph.Edges) > 0
+		}
+		return false
+	}
+	for _, b := range h.Blocks {
+		ret, ok := terminator(b).(*ssa.Return)
+		if !ok || !mayFollow(last.Ins, ret) {
+			continue
+		}
+		if behindSince(last.Ins, nonNil, b) {
+			continue // the read failed
+		}
+		rv := ret.Results[k]
+		if isNilOrE(rv, 0) {
+			continue
+		}
+		_ = pr
+		okAll = false
+		c.Bad("R6.4", cons, posOf(p, ret), "the header stage can fail after its last read has succeeded (returns "+describeVal(rv)+"): the caller then leaves with the frame's body still in the stream")
+	}
+	if okAll {
+		c.OK("R6.4", cons, posOf(p, last.Ins), "after its last read has succeeded the header stage returns a nil error on every path")
 	}
 }
 
